@@ -33,7 +33,7 @@ def describe(tier):
         'circuits: every circuit of F(n,k,A) x all 3^n partial assignments x {absent, explicit Undefined} x '
         '{evaluate_full_circuit, evaluate_circuit (default outputs = all sinks, and outputs=[g] for every g), '
         'evaluate_circuit_outputs}; soundness against all completions, monotonicity along every covering pair '
-        'p < q, definedness under total assignments. distinct = distinct (definedness pattern) outcomes.',
+        'p < q, definedness under total assignments; the same after an evaluation followed by a label exchange of two gates (renames only). distinct = distinct (definedness pattern) outcomes.',
         'bounds': {
             'quick': 'F(1..2,<=2,FULL), F(3,1,FULL), F(2,1,4-ary)',
             'thorough': '+ F(3,2,FULL), F(2,3,FULL\\S3), F(1,3,FULL), F(3,1,4-ary)',
@@ -220,12 +220,66 @@ def check_circuit(n, gates, acc):
     acc.sample({**space.spec_json(n, gates), 'partial': ['U'] * n})
 
 
+def check_after_relabel(n, gates, acc):
+    """Evaluate, then exchange the labels of the first two gates by three renames (no gate is added or
+    removed), then evaluate under every partial assignment again: answers must be sound for the circuit as
+    it is NOW."""
+    from cirbo.core.circuit.operators import Undefined
+
+    k = len(gates)
+    if k < 2:
+        return
+    labs = space.labels(n, k)
+    c = space.build(n, gates, space.sinks(n, gates))
+    case = lambda: {**space.spec_json(n, gates), 'scenario': 'evaluate, swap labels g0<->g1 by renames, evaluate'}  # noqa: E731
+    try:
+        c.evaluate_full_circuit({})
+        c.get_gates_truth_table()
+        c.evaluate_circuit({})
+        c.rename_gate('g0', 'zz_tmp')
+        c.rename_gate('g1', 'g0')
+        c.rename_gate('zz_tmp', 'g1')
+    except Exception as e:  # noqa: BLE001
+        acc.violation(f'relabel/raises-{type(e).__name__}', case, repr(e))
+        return
+    net = refmodel.abstract(c)
+    ref = net.tables()
+    mask = (1 << (1 << n)) - 1
+    iv = refmodel.input_vectors_cached(n)
+    for p in itertools.product(range(3), repeat=n):
+        comp = mask
+        for i, v in enumerate(p):
+            if v == 1:
+                comp &= iv[i]
+            elif v == 0:
+                comp &= iv[i] ^ mask
+        a = {labs[i]: bool(v) for i, v in enumerate(p) if v != 2}
+        for entry, fn in (('evaluate_full_circuit', c.evaluate_full_circuit), ('evaluate_circuit', c.evaluate_circuit)):
+            acc.transitions += 1
+            ok, res = guarded(acc, entry, case, fn, dict(a))
+            if not ok:
+                return
+            if entry == 'evaluate_full_circuit' and set(res) != set(net.gates):
+                acc.violation(f'{entry}/wrong-keys-after-relabel', case, sorted(res))
+                return
+            for l, v in res.items():
+                if _isb(v) and l in ref:
+                    r = ref[l] & comp
+                    if (v and r != comp) or (not v and r != 0):
+                        acc.violation(f'{entry}/unsound-after-relabel', case, f'partial {p}: gate {l} reported {v}')
+                        return
+                elif 2 not in p and entry == 'evaluate_full_circuit':
+                    acc.violation(f'{entry}/undefined-under-total-assignment-after-relabel', case, f'gate {l}')
+                    return
+
+
 def run_task(task, acc):
     if task['kind'] == 'ops':
         return check_ops(acc)
     alpha = ALPHAS[task['alpha']]
     for gates in space.enum_gates(task['n'], task['k'], alpha, space.prefix_from_task(task)):
         check_circuit(task['n'], gates, acc)
+        check_after_relabel(task['n'], gates, acc)
 
 
 def replay(case, acc):
@@ -233,5 +287,7 @@ def replay(case, acc):
         return run_task(case['task'], acc)
     if 'gates' in case:
         n, gates, _ = space.spec_from_json(case)
+        if 'scenario' in case:
+            return check_after_relabel(n, gates, acc)
         return check_circuit(n, gates, acc)
     return check_ops(acc)
